@@ -104,6 +104,12 @@ impl DoFile {
     pub fn do_file(&self) -> &OsStr {
         &self.do_file
     }
+
+    /// Add-only accessor: (base_dir, base_name, ext).
+    #[cfg(feature = "verif-hooks")]
+    pub fn verif_parts(&self) -> (&Path, &Path, &OsStr) {
+        (&self.base_dir, &self.base_name, &self.ext)
+    }
 }
 
 /// Iterator over the list of .do files needed to build a given path,
